@@ -379,6 +379,7 @@ func run(r *Rng, tier string, n int) {
 			m.SetQuestion(qn, t)
 			m.Answer = []dns.RR{rr}
 			checkMsg(m, k == 0, "per-type")
+			compressedInput(m)
 		}
 	}
 	// messages crossing the 16384-octet pointer limit
@@ -427,7 +428,67 @@ func run(r *Rng, tier string, n int) {
 	Stat(st)
 }
 
+// compressedInput: compressed names are accepted on input for EVERY type. The message (one question,
+// one answer whose RDATA names all equal the question name) is packed without compression; then every
+// occurrence of that name inside the RDATA is replaced by a pointer to the question (what another
+// implementation may send), RDLENGTH adjusted: the result must unpack to the same message.
+func compressedInput(m *dns.Msg) {
+	c := m.Copy()
+	c.Compress = false
+	w, err := c.Pack()
+	if err != nil {
+		return
+	}
+	_, rrs, ok := spans(w)
+	if !ok || len(rrs) != 1 {
+		return
+	}
+	qend, _, _, _ := walkName(w, 12)
+	qw := w[12:qend]
+	rd := w[rrs[0].rdOff : rrs[0].rdOff+rrs[0].rdLen]
+	var nrd []byte
+	hits := 0
+	for i := 0; i < len(rd); {
+		if bytes.HasPrefix(rd[i:], qw) {
+			nrd = append(nrd, 0xC0, 12)
+			i += len(qw)
+			hits++
+		} else {
+			nrd = append(nrd, rd[i])
+			i++
+		}
+	}
+	if hits == 0 {
+		return
+	}
+	nw := append([]byte{}, w[:rrs[0].rdOff]...)
+	nw[rrs[0].rdOff-2], nw[rrs[0].rdOff-1] = byte(len(nrd)>>8), byte(len(nrd))
+	nw = append(nw, nrd...)
+	st["compressed_input_checked"]++
+	var a, b dns.Msg
+	if a.Unpack(w) != nil {
+		return
+	}
+	in := map[string]string{"wire": Hx(nw), "uncompressed": Hx(w)}
+	tn := dns.TypeToString[m.Answer[0].Header().Rrtype]
+	if err := b.Unpack(nw); err != nil {
+		Viol("C04/compressed-input-rejected/"+tn, "a message with compression pointers inside the RDATA is not accepted: "+err.Error(), in)
+		return
+	}
+	ta, _ := MsgText(&a)
+	for _, r := range b.Answer {
+		r.Header().Rdlength = a.Answer[0].Header().Rdlength
+	}
+	tb, _ := MsgText(&b)
+	if ta != tb {
+		Viol("C04/compressed-input-differs/"+tn, "a message with compression pointers inside the RDATA decodes to a different message", in)
+	}
+}
+
 // setNames puts qn into every domain-name field of the record
 func setNames(rr dns.RR, qn string) {
+	if h, ok := rr.(*dns.HIP); ok && len(h.RendezvousServers) == 0 {
+		h.RendezvousServers = []string{"."}
+	}
 	ForEachNameField(rr, func(get func() string, set func(string)) { set(qn) })
 }
